@@ -4,6 +4,7 @@
    inserted or truncated bytes yields SOME sequence of lines, or an unparsable one, which
    is [LOther]).  MD5 is the abstract function H; the two digest hypotheses are premises. *)
 From Trzsz Require Import Base.Bytes Model.Path Model.Fs Model.Names Model.Transfer Model.Protocol Model.FaultTie Proofs.Protocol Proofs.FaultTie.
+From Trzsz Require Model.Resume Model.FaultResume.
 From Coq Require Import ZArith.
 
 Section C02.
@@ -176,3 +177,47 @@ Example C02_transfer_v1_overshoot :
   let r := ft_receive (list byte) (fun x => x) list_eqb (fun x => Some x) (fun x => Some x) c [[100]] f0 [] ms in
   (rs_phase (fst (fst r)), map (fun sv => (fv_size _ sv, fv_content _ sv)) (snd r)) = (RpDone, [(3%N, [1; 2; 1; 2])]).
 Proof. vm_compute. reflexivity. Qed.
+
+(* ------------------------------------------------------------------------------------------
+   The resume exchange (protocol >= 3, overwrite onto a non-empty destination) is NOT covered by
+   C02_transfer_no_silent: the machine of Model/Transfer.v stops in RpUnmodelled there.  The full
+   statement - whatever answers of the hash exchange are delivered to the sender, a file whose data
+   phase the receiver accepts ends identical to the source - is FALSE for the faithful model
+   (Model/Resume.v, Model/FaultResume.v): the digest and the size of the data phase cover only what
+   is transmitted, not the kept prefix, and the two ends never compare the offsets they chose. *)
+Definition C02_resume_full : Prop :=
+  forall (B : N) (Hh : list byte -> Resume.digest) (src dst : list byte) (delivered : list Resume.ack) o,
+    (0 < B)%N ->
+    (forall x y, Hh x = Hh y -> x = y) ->                      (* even for a collision-free digest *)
+    FaultResume.fr_run B Hh src dst delivered = Some o ->
+    (* the data phase as the sender produces it for what it transmits is accepted by the receiver *)
+    recv_v2 Resume.digest Hh list_eqb (fun fs => Some (concat fs)) (Z.of_nat (length (FaultResume.fo_sent o))) []
+      [LData _ (FaultResume.fo_sent o); LData _ []; LMd5 _ (Hh (FaultResume.fo_sent o))] = Accept (FaultResume.fo_sent o) ->
+    FaultResume.fo_final o = src.
+
+(* witness: block size 2, source 1 2 3 4 5, destination 1 2 9 9 (first block equal, second different);
+   the receiver answers (2, match) (4, no match); the FIRST answer is lost on the way: the sender
+   restarts from 0, the receiver keeps 2 bytes and appends: 1 2 1 2 3 4 5 is reported as saved *)
+Theorem C02_resume_refuted :
+  exists (B : N) (Hh : list byte -> Resume.digest) (src dst : list byte) (delivered : list Resume.ack) o,
+    (0 < B)%N /\ (forall x y, Hh x = Hh y -> x = y) /\
+    delivered = tl (FaultResume.fr_answers B Hh src dst) /\      (* one whole line dropped *)
+    FaultResume.fr_run B Hh src dst delivered = Some o /\
+    recv_v2 Resume.digest Hh list_eqb (fun fs => Some (concat fs)) (Z.of_nat (length (FaultResume.fo_sent o))) []
+      [LData _ (FaultResume.fo_sent o); LData _ []; LMd5 _ (Hh (FaultResume.fo_sent o))] = Accept (FaultResume.fo_sent o) /\
+    FaultResume.fo_mrecv o <> FaultResume.fo_msend o /\
+    FaultResume.fo_final o <> src.
+Proof.
+  exists 2%N, (fun x => x), [1; 2; 3; 4; 5], [1; 2; 9; 9], [Resume.mkAck 4 false],
+    (FaultResume.mkFrOut 2 0 [1; 2; 3; 4; 5] [1; 2; 1; 2; 3; 4; 5]).
+  split; [reflexivity|]. split; [auto|]. split; [vm_compute; reflexivity|]. split; [vm_compute; reflexivity|].
+  split; [vm_compute; reflexivity|]. split; [discriminate | discriminate].
+Qed.
+
+Theorem C02_resume_full_refuted : ~ C02_resume_full.
+Proof.
+  intro F. destruct C02_resume_refuted as (B & Hh & src & dst & dl & o & Hb & Hi & _ & R & A & _ & N).
+  exact (N (F B Hh src dst dl o Hb Hi R A)).
+Qed.
+Print Assumptions C02_resume_refuted.
+Print Assumptions C02_resume_full_refuted.
